@@ -1,3 +1,4 @@
+#!/venv/bin/python
 """atheris (libFuzzer) driver for C10.  Run as:  python -m kv.fuzz_c10 <shard> <nshards> <outdir> [libFuzzer args]
 
 The oracle lives inside the target (kv.props.c10.check_bytes).  Failures do not crash the fuzzer: they are
@@ -77,9 +78,7 @@ def main() -> None:
             flush()
 
     flush()
-    # committed, merge-minimised corpus of earlier campaigns (read-only second corpus directory)
-    saved = os.path.join(os.path.dirname(os.path.dirname(os.path.abspath(__file__))), "corpus", "C10-fuzz", f"shard{shard:02d}of{nshards}")
-    dirs = [corpus] + ([saved] if os.path.isdir(saved) else [])
+    dirs = [corpus]
     atheris.Setup([sys.argv[0]] + fuzz_args + dirs, one)
     atheris.Fuzz()
 
